@@ -151,22 +151,24 @@ impl Mirror {
         }
     }
 
-    pub fn text(&mut self, r: i64) -> String {
+    pub fn text(&mut self, r: i64, q: &[usize; 10]) -> String {
         let d = self.reps.get_mut(&r).unwrap();
         let hb = d.get_heads();
         let t = d.put_object(ROOT, "t", ObjType::Text).unwrap();
         let mut o = String::from("T");
         write!(o, " {}", okerr(&d.splice_text(&t, 0, 0, "hello w\u{f6}rld"))).unwrap();
-        write!(o, " {}", okerr(&d.splice_text(&t, 2, 3, "XY"))).unwrap();
+        // (a position beyond the end is an error by the C convention, and by the Rust API as well)
+        write!(o, " {}", if q[0] > d.length(&t) { "err" } else { okerr(&d.splice_text(&t, q[0], q[1] as isize, "XY")) }).unwrap();
         commit(d);
         let hm = d.get_heads();
         // SIZE_MAX: the end of the text; beyond the end: an error
         let len = d.length(&t);
         write!(o, " {}", okerr(&d.splice_text(&t, len, 0, "!"))).unwrap();
         write!(o, " err").unwrap();
-        write!(o, " {}", okerr(&d.mark(&t, Mark::new("bold".into(), true, 1, 6), ExpandMark::Both))).unwrap();
-        write!(o, " {}", okerr(&d.mark(&t, Mark::new("size".into(), 7i64, 3, 8), ExpandMark::None))).unwrap();
-        write!(o, " {}", okerr(&d.unmark(&t, "bold", 2, 4, ExpandMark::Both))).unwrap();
+        let ex = [ExpandMark::None, ExpandMark::Before, ExpandMark::After, ExpandMark::Both][q[8] % 4];
+        write!(o, " {}", okerr(&d.mark(&t, Mark::new("bold".into(), true, q[2], q[3]), ExpandMark::Both))).unwrap();
+        write!(o, " {}", okerr(&d.mark(&t, Mark::new("size".into(), 7i64, q[4], q[5]), ex))).unwrap();
+        write!(o, " {}", okerr(&d.unmark(&t, "bold", q[6], q[7], ExpandMark::Both))).unwrap();
         write!(o, " {}", okerr(&d.mark(&t, Mark::new("rev".into(), 7i64, 4, 2), ExpandMark::None))).unwrap();
         commit(d);
         match d.text(&t) {
@@ -179,7 +181,7 @@ impl Mirror {
             Err(_) => write!(o, " then=err").unwrap(),
         }
         write!(o, " lenthen={} lenbefore={} marksthen={}", d.length_at(&t, &hm), d.length_at(&t, &hb), Self::marks_str(d, &t, Some(&hm))).unwrap();
-        match d.get_cursor(&t, 3, None) {
+        match d.get_cursor(&t, q[9], None) {
             Ok(c) => {
                 write!(o, " cur={}", c).unwrap();
                 match d.get_cursor_position(&t, &c, None) {
@@ -541,7 +543,16 @@ pub fn programs(text: &str, epilogue: bool) -> (String, String, usize) {
             let sel = nb % 4;
             let mut cmds: Vec<String> = vec![];
             if sel == 0 || sel == 2 { cmds.push(format!("scal {}", r)); }
-            if sel == 1 || sel == 2 { cmds.push(format!("text {}", r)); }
+            if sel == 1 || sel == 2 {
+                // parameters of the text epilogue: drawn from the behaviour's number (a small LCG), so they vary
+                let mut x = (nb as u64).wrapping_mul(6364136223846793005).wrapping_add(1442695040888963407);
+                let mut nx = |m: u64| { x = x.wrapping_mul(6364136223846793005).wrapping_add(1442695040888963407); ((x >> 33) % m) as usize };
+                let a = nx(13); let b = nx(5);
+                let c = nx(9); let dd = c + nx(6);
+                let e = nx(12); let f = e + nx(5);
+                let g = nx(10); let h = g + nx(4);
+                cmds.push(format!("text {} {} {} {} {} {} {} {} {} {} {}", r, a, b, c, dd, e, f, g, h, nx(4), nx(13)));
+            }
             if sel != 1 { cmds.push(format!("edge {}", r)); }
             if sel == 3 || sel == 1 { cmds.push(format!("fork {}", r)); }
             cmds.push(format!("errs {}", r));
@@ -553,7 +564,13 @@ pub fn programs(text: &str, epilogue: bool) -> (String, String, usize) {
                 let w: Vec<&str> = c.split(' ').collect();
                 let line = match w[0] {
                     "scal" => m.scal(r),
-                    "text" => m.text(r),
+                    "text" => {
+                        let mut q = [0usize; 10];
+                        for (i, x) in w[2..].iter().enumerate().take(10) {
+                            q[i] = x.parse().unwrap_or(0);
+                        }
+                        m.text(r, &q)
+                    }
                     "edge" => m.edge(r),
                     "fork" => m.fork(r),
                     "errs" => m.errs(r),
